@@ -286,7 +286,11 @@ def read(b, h, want_type=True):
             t = b.typestr(h)
         except AkError as e:
             t = "<type error: %s>" % e.msg[:80]
-    return Outcome("value", model.value(d), t, d, handle=h)
+    try:
+        v = model.value(d)
+    except Exception as e:     # an invalid result the model cannot follow (reported by the closure monitor)
+        v = "<unreadable result: %s>" % type(e).__name__
+    return Outcome("value", v, t, d, handle=h)
 
 
 def read_index(b, ih):
